@@ -86,22 +86,16 @@ theorem self_match_fails_marketing :
 def SameNorm (r r' : PQS) : Prop :=
   r.pathAndQuery = r'.pathAndQuery ∧ r.matching = r'.matching ∧ r.skipped = r'.skipped
 
-theorem splitFirst_url (P Q : Bytes) (hP : 63 ∉ P) : splitFirst 63 (P ++ 63 :: Q) = (P, some Q) := by
-  rw [splitFirst_append_of_not_mem 63 P _ hP]
-  simp [splitFirst]
-
-theorem paramsOf_url (P Q : Bytes) (hP : 63 ∉ P) : paramsOf (P ++ 63 :: Q) = btCollect (parseQuery Q) := by
-  rw [paramsOf_eq, splitFirst_url P Q hP]
-
 /-- **Permuting the query parameters (distinct decoded keys) leaves the normalised request
-unchanged**: `Q'` has the same `&`-separated pieces as `Q` in another order. -/
+unchanged**: `Q'` has the same `&`-separated pieces as `Q` in another order.  (Acceptance of the
+permuted URL by `PathAndQuery` follows from acceptance of the first: `accepted_perm`.) -/
 theorem order_independent (cfg : Cfg) (P Q Q' : Bytes) (hP : 63 ∉ P)
     (hb : IsBytes (P ++ 63 :: Q)) (hb' : IsBytes (P ++ 63 :: Q'))
     (hperm : (pieces 38 Q).Perm (pieces 38 Q'))
     (hnd : ((parseQuery Q).map Prod.fst).Nodup)
-    (hacc : (pqParse (sanitize (P ++ 63 :: Q))).isSome = true)
-    (hacc' : (pqParse (sanitize (P ++ 63 :: Q'))).isSome = true) :
+    (hacc : (pqParse (sanitize (P ++ 63 :: Q))).isSome = true) :
     SameNorm (fromConfig cfg (P ++ 63 :: Q)) (fromConfig cfg (P ++ 63 :: Q')) := by
+  have hacc' := accepted_perm P Q Q' hP hperm hacc
   have hpq : (parseQuery Q).Perm (parseQuery Q') := by
     unfold parseQuery
     exact (hperm.filter _).map _
@@ -116,10 +110,9 @@ theorem order_independent_match (cfg : Cfg) (ruleK : Bytes) (P Q Q' : Bytes) (hP
     (hb : IsBytes (P ++ 63 :: Q)) (hb' : IsBytes (P ++ 63 :: Q'))
     (hperm : (pieces 38 Q).Perm (pieces 38 Q'))
     (hnd : ((parseQuery Q).map Prod.fst).Nodup)
-    (hacc : (pqParse (sanitize (P ++ 63 :: Q))).isSome = true)
-    (hacc' : (pqParse (sanitize (P ++ 63 :: Q'))).isSome = true) :
+    (hacc : (pqParse (sanitize (P ++ 63 :: Q))).isSome = true) :
     matchesKey ruleK (reqKey cfg (P ++ 63 :: Q)) = matchesKey ruleK (reqKey cfg (P ++ 63 :: Q')) := by
-  have := order_independent cfg P Q Q' hP hb hb' hperm hnd hacc hacc'
+  have := order_independent cfg P Q Q' hP hb hb' hperm hnd hacc
   unfold reqKey PQS.key
   rw [this.2.1, this.1]
 
@@ -129,13 +122,12 @@ def OrderIndependentFull : Prop :=
   ∀ (cfg : Cfg) (P Q Q' : Bytes), 63 ∉ P → IsBytes (P ++ 63 :: Q) → IsBytes (P ++ 63 :: Q') →
     (pieces 38 Q).Perm (pieces 38 Q') →
     (pqParse (sanitize (P ++ 63 :: Q))).isSome = true →
-    (pqParse (sanitize (P ++ 63 :: Q'))).isSome = true →
     reqKey cfg (P ++ 63 :: Q) = reqKey cfg (P ++ 63 :: Q')
 
 theorem order_independent_full_fails : ¬ OrderIndependentFull := by
   intro h
   have := h cfgDefault [47, 97] [107, 61, 49, 38, 107, 61, 50] [107, 61, 50, 38, 107, 61, 49]
-    (by decide) (by decide) (by decide) (by decide) (by decide) (by decide)
+    (by decide) (by decide) (by decide) (by decide) (by decide)
   revert this
   decide
 
@@ -334,14 +326,6 @@ theorem separation_fails_encoded_percent :
 
 /-! ### re-normalising a request changes nothing -/
 
-theorem lowerByte_idem (b : Nat) : lowerByte (lowerByte b) = lowerByte b := by
-  unfold lowerByte; split <;> (try split) <;> omega
-
-theorem lowerIf_idem (f : Bool) (s : Bytes) : lowerIf f (lowerIf f s) = lowerIf f s := by
-  cases f
-  · rfl
-  · simp [lowerIf, lowerAscii, lowerByte_idem]
-
 /-- **`rebuild_with_config` is idempotent.** -/
 theorem rebuild_idempotent (cfg : Cfg) (r : Req) :
     Req.rebuild cfg (Req.rebuild cfg r) = Req.rebuild cfg r := by
@@ -380,7 +364,7 @@ example : WFurl cfgDefault exUrl = true ∧ IsBytes exUrl ∧
 example : SameNorm (fromConfig cfgDefault ([47, 97] ++ 63 :: [98, 61, 49, 38, 97, 61, 50]))
     (fromConfig cfgDefault ([47, 97] ++ 63 :: [97, 61, 50, 38, 98, 61, 49])) :=
   order_independent cfgDefault [47, 97] _ _ (by decide) (by decide) (by decide) (by decide) (by decide)
-    (by decide) (by decide)
+    (by decide)
 
 /-- marketing: `/a?b=1&utm_source=x` and `/a?b=1` (ignore flag on). -/
 example : reqKey cfgDefault ([47, 97, 63, 98, 61, 49] ++ 38 :: [117, 116, 109, 95, 115, 111, 117, 114, 99, 101, 61, 120]) =
